@@ -47,6 +47,8 @@ def run(ctx):
         return dict(x.split('=') for x in case.split(' ')[1].split(','))
 
     def oracle(case, fi, fm):
+        if fm.get('glue'):   # refused configuration / no filesystem extractor: nothing is walked, limits and cancellation never apply
+            return W.oracle_glue(case, fi, fm)
         c = kv(case)
         mi, mx, ca, cb = int(c['mi']), int(c['mx']), int(c['ca']), int(c['cb'])
         if mi > 0 and fi.get('vis', '0').isdigit() and int(fi['vis']) > mi:
